@@ -52,7 +52,7 @@ TypeCalls(a, todo, i) ==
              RECURSIVE G(_)
              G(k) == IF k > Len(a.gens) THEN [calls |-> <<>>, stop |-> FALSE]
                      ELSE LET g == a.gens[k]
-                              hit == a.fault.kind \in {"err", "die"} /\ a.fault.pkg = p /\ a.fault.gen = g
+                              hit == a.fault.kind \in {"err", "die", "panic"} /\ a.fault.pkg = p /\ a.fault.gen = g
                           IN IF hit /\ a.fault.at = "T1" THEN [calls |-> << <<p, g, "T1">> >>, stop |-> TRUE]
                              ELSE IF hit THEN [calls |-> << <<p, g, "T1">>, <<p, g, "T2">> >>, stop |-> TRUE]
                              ELSE LET rest == G(k + 1) IN [calls |-> << <<p, g, "T1">>, <<p, g, "T2">> >> \o rest.calls, stop |-> rest.stop]
@@ -87,9 +87,9 @@ Holds(cj, r, quietNow, memoNow) ==
     LET c == r.case  a == r.case.step  o == r.obs  pre == r.obs.pre  post == r.obs.post
         hit == FaultHit(a, pre)
     IN
-    CASE cj = "X_NoPanic" -> o.panic = "" /\ o.load_err = ""
+    CASE cj = "X_NoPanic" -> (o.panic = "" \/ (hit /\ a.fault.kind = "panic")) /\ o.load_err = ""
       [] cj = "C02_Outcome" ->
-            IF hit THEN (a.fault.kind = "die" => (o.died /\ ~o.failed)) /\ (a.fault.kind # "die" => (o.failed /\ ~o.died))
+            IF hit THEN (a.fault.kind \in {"die", "panic"} => (o.died /\ ~o.failed)) /\ (a.fault.kind \notin {"die", "panic"} => (o.failed /\ ~o.died))
             ELSE ~o.failed /\ ~o.died
       [] cj = "C02_SumUntouched" -> (o.failed \/ o.died) => post.sum_digest = pre.sum_digest
       [] cj = "C02_SumUntouchedDuringRun" -> \A i \in 1..Len(o.calls) : o.calls[i].sum_same
